@@ -25,7 +25,7 @@ pub fn layer_a_check(prop: &str, tier: &str) -> i32 {
     let seed = seed_from_env();
     let (programs, histories) = match (prop, tier) {
         (_, "quick") => (8, 20),
-        (_, _) => (96, 64),
+        (_, _) => (64, 48),
     };
     let programs = std::env::var("BSSIM_PROGRAMS").ok().and_then(|s| s.parse().ok()).unwrap_or(programs);
     let histories = std::env::var("BSSIM_HISTORIES").ok().and_then(|s| s.parse().ok()).unwrap_or(histories);
@@ -115,7 +115,7 @@ pub fn layer_a_check(prop: &str, tier: &str) -> i32 {
 
 pub fn dap_check(prop: &str, tier: &str) -> i32 {
     let seed = seed_from_env();
-    let (programs, histories) = if tier == "quick" { (5, 20) } else { (48, 64) };
+    let (programs, histories) = if tier == "quick" { (5, 20) } else { (32, 48) };
     let programs = std::env::var("BSSIM_PROGRAMS").ok().and_then(|s| s.parse().ok()).unwrap_or(programs);
     let histories = std::env::var("BSSIM_HISTORIES").ok().and_then(|s| s.parse().ok()).unwrap_or(histories);
     let specs: Vec<progen::ProgramSpec> = (0..programs)
@@ -257,7 +257,7 @@ pub fn layer_b_check(prop: &str, tier: &str) -> i32 {
 
 pub fn session_check(prop: &str, tier: &str) -> i32 {
     let seed = seed_from_env();
-    let histories = if tier == "quick" { 14 } else { 300 };
+    let histories = if tier == "quick" { 14 } else { 80 };
     let histories = std::env::var("BSSIM_HISTORIES").ok().and_then(|s| s.parse().ok()).unwrap_or(histories);
     let specs: Vec<progen::ProgramSpec> = ["1.89", "stable", "nightly"].iter().map(|tc| crate::session::arena_program(tc)).collect();
     let corpus = orch::build_corpus(specs, false);
